@@ -70,6 +70,7 @@ class Stats:
 class Ctx:
     def __init__(self, prefix=()):
         self.solver = z3.Solver()
+        self.lin = z3.Solver()       # the linear part of the path condition only (fast refutations)
         self.cons = []
         self.prefix = list(prefix)
         self.taken = []      # decisions taken (bool)
@@ -118,6 +119,8 @@ class Ctx:
             return
         self.cons.append(c)
         self.solver.add(c)
+        if _is_linear(c):
+            self.lin.add(c)
 
     def assume(self, c, why=None):
         """Add an assumption; end the path silently if it makes the path infeasible."""
@@ -153,6 +156,20 @@ class Ctx:
             return True
         if z3.is_false(c):
             return False
+        if _is_linear(c):
+            # refuting c against the linear part of the path condition refutes it against all of it;
+            # this keeps integer/linear branch decisions fast when nonlinear constraints are around
+            t = time.time()
+            self.lin.push()
+            self.lin.add(c)
+            r0 = timed_check(self.lin, 1000)
+            self.lin.pop()
+            self.stats.queries += 1
+            self.stats.solver_s += time.time() - t
+            if r0 == z3.unsat:
+                return False
+            if r0 == z3.sat and len(self.cons) > len(self.lin.assertions()):
+                timeout = min(timeout, 400)     # linear part satisfiable: only the nonlinear rest could refute it; do not wait long
         r, _ = self._check([c], timeout)
         return r != 'unsat'
 
@@ -163,7 +180,7 @@ class Ctx:
         c = _b(c)
         if z3.is_false(c):
             return 'unsat', None
-        r, m = self._check([c], min(timeout, 10000))
+        r, m = self._check([c], min(timeout, 1500))
         defs = self.extra.get('absdefs')
         if defs and r != 'unsat':
             # abstracted products: the query was not refuted without their definitions -> exact re-run
@@ -180,15 +197,28 @@ class Ctx:
                 return str(rr), (s.model() if rr == z3.sat else None)
             return r, m
         if r == 'unknown':
-            t = time.time()
-            s = z3.Solver()
-            s.add(self.cons)
-            s.add(c)
-            rr = timed_check(s, timeout)
-            self.stats.queries += 1
-            self.stats.solver_s += time.time() - t
-            r = str(rr)
-            m = s.model() if rr == z3.sat else None
+            # portfolio: z3's nlsat tactic and its default pipeline each decide some nonlinear queries
+            # in milliseconds that the incremental core (above) times out on, and vice versa
+            for mk, to in ((lambda: z3.Tactic('qfnra-nlsat').solver(), min(timeout, 10000)), ('incr', min(timeout, 15000)), (z3.Solver, timeout)):
+                if mk == 'incr':
+                    r, m = self._check([c], to)
+                    if r != 'unknown':
+                        break
+                    continue
+                t = time.time()
+                try:
+                    s = mk()
+                    s.add(self.cons)
+                    s.add(c)
+                    rr = timed_check(s, to)
+                    r = str(rr)
+                    m = s.model() if rr == z3.sat else None
+                except z3.Z3Exception:
+                    r, m = 'unknown', None
+                self.stats.queries += 1
+                self.stats.solver_s += time.time() - t
+                if r != 'unknown':
+                    break
         return r, m
 
     def model_inputs(self, m):
@@ -366,6 +396,35 @@ class Ctx:
                 return v
         self.add(e == vals[-1])
         return vals[-1]
+
+
+_LIN = {}
+
+
+def _is_linear(e):
+    """no product of two non-constant terms, no division by a non-constant, no uninterpreted function"""
+    i = e.get_id()
+    r = _LIN.get(i)
+    if r is None:
+        r = True
+        if z3.is_app(e):
+            k = e.decl().kind()
+            ch = e.children()
+            if k == z3.Z3_OP_MUL:
+                nonconst = [a for a in ch if not (z3.is_rational_value(a) or z3.is_int_value(a))]
+                r = len(nonconst) <= 1
+            elif k in (z3.Z3_OP_DIV, z3.Z3_OP_IDIV, z3.Z3_OP_MOD, z3.Z3_OP_REM):
+                r = z3.is_rational_value(ch[1]) or z3.is_int_value(ch[1])
+            elif k == z3.Z3_OP_UNINTERPRETED and ch:
+                r = False
+            elif k == z3.Z3_OP_POWER:
+                r = False
+            if r:
+                r = all(_is_linear(a) for a in ch)
+        elif z3.is_quantifier(e):
+            r = False
+        _LIN[i] = r
+    return r
 
 
 CTX = None
@@ -818,7 +877,37 @@ def rdiv(x, y):
     ys = z3.simplify(y)
     if z3.is_rational_value(ys) or z3.is_int_value(ys):
         return x / y
+    if CTX is not None and CTX.extra.get('recip_witnesses'):
+        r = _recip_of(ys)
+        if r is not None:
+            return x * r
     return x * (z3.RealVal(1) / ys)
+
+
+def _recip_of(ys):
+    """Opt-in (ctx.extra['recip_witnesses']): division by a square-root witness w (or by the
+    reciprocal witness q of one, possibly times a rational) is turned into multiplication:
+    1/w is a fresh q with q*w == 1, q > 0 and the redundant lemma q*q*arg == 1; 1/q is w.  All
+    constraints stay polynomial, which z3 decides where x/sqrt(..) terms time out.  Assumes the
+    square root is non-zero (recorded as an assumption)."""
+    c = CTX
+    reg = c.extra.setdefault('recip', {})
+    coef = None
+    v = ys
+    if z3.is_app(ys) and ys.decl().kind() == z3.Z3_OP_MUL and ys.num_args() == 2 and z3.is_rational_value(ys.arg(0)):
+        coef, v = ys.arg(0), ys.arg(1)
+    i = v.get_id()
+    if i not in reg:
+        arg = c.extra.get('sqrt_args', {}).get(i)
+        if arg is None:
+            return None
+        q = c.fresh(z3.RealSort(), 'rsqrt')
+        c.assumptions.add('a square root that is divided by is non-zero')
+        c.add(z3.And(q * v == 1, q > 0, v > 0, q * q * arg[0] == 1))
+        reg[i] = (v, q)
+        reg[q.get_id()] = (q, v)
+    partner = reg[i][1]
+    return partner if coef is None else partner / coef
 
 
 _RECIP = {}
@@ -957,6 +1046,7 @@ def sym_sqrt(s):
     r = CTX.fresh(z3.RealSort(), 'sqrt')
     CTX.assumptions.add('sqrt arguments are >= 0 (sqrt(x) is the non-negative root r with r*r == x)')
     CTX.add(z3.And(r >= 0, r * r == x))
+    CTX.extra.setdefault('sqrt_args', {})[r.get_id()] = (x, r)
     out = Sym(r)
     memo[key] = (x, out)
     return out
